@@ -983,6 +983,11 @@ class Consumer(object):
         proc_block_end = proc_block_size
 
         while proc_block_begin < len(messages) and not self._shuttingdown:
+            if self._start_d is not None and self._start_d.called:
+                # We have already reported an unrecoverable error (e.g. the
+                # processor failed). Delivering later messages would advance
+                # the processed offset, and so commits, past the failure.
+                break
             msgs_to_proc = messages[proc_block_begin:proc_block_end]
             # Call our processor callable and handle the possibility it returned
             # a deferred...
